@@ -240,6 +240,8 @@ def _dmrg_sweep_2site_(env, opts_eigs=None, opts_svd=None, Schmidt=None, precomp
             _, (AA,) = eigs(lambda v: env.Heff2(v, bd), AA, k=1, **opts_eigs)
             _disc_weight_bd = psi.post_2site_(AA, bd, opts_svd)
             max_disc_weight = max(max_disc_weight, _disc_weight_bd)
+            psi.A[psi.pC] = psi.A[psi.pC] / psi.A[psi.pC].norm()  # truncation may have removed some weight
+            psi.factor = 1
             if Schmidt is not None and to == 'first':
                 Schmidt[psi.pC] = psi[psi.pC]
             psi.absorb_central_(to=to)
